@@ -9,12 +9,23 @@ def sh(cmd, cwd):
     return subprocess.run(cmd, cwd=cwd, shell=True, env=env, capture_output=True, text=True).stdout
 def results(out):
     return re.findall(r"test result: (\w+)\. (\d+) passed; (\d+) failed", out)
-with_ = results(sh("cargo test --offline 2>&1", wt + "/_demo"))
+script = next((x for x in ("run.sh", "demo.sh") if os.path.exists(wt + "/_demo/" + x)), None)
+def demo():
+    if script:
+        p = subprocess.run("bash _demo/%s" % script, cwd=wt, shell=True, env=env, capture_output=True, text=True)
+        return [("ok" if p.returncode == 0 else "FAILED", "1" if p.returncode == 0 else "0", "0" if p.returncode == 0 else "1")]
+    return results(sh("cargo test --offline 2>&1", wt + "/_demo"))
+# make sure the change is applied, then run the demonstration with and without it
+if not sh("git diff --stat -- lalrpop lalrpop-util", wt).strip():
+    sh("git apply _demo/patch.diff", wt)
+with_ = demo()
 sh("git apply -R _demo/patch.diff", wt)
-without = results(sh("cargo test --offline 2>&1", wt + "/_demo"))
+without = demo()
 sh("git apply _demo/patch.diff", wt)
 log = wt.rstrip("/") + ".verify.log"
 suite = results(open(log).read().split("== full suite WITH change")[1]) if os.path.exists(log) and "== full suite WITH change" in open(log).read() else []
+if script:
+    demo()   # leave generated demo files in the with-change state
 if not suite:
     suite = results(sh("cargo test --workspace --no-fail-fast --offline 2>&1", wt))
 ok = (any(int(f) > 0 for _, _, f in with_) and all(int(f) == 0 for _, _, f in without) and sum(int(p) for _, p, _ in without) > 0
